@@ -5,14 +5,18 @@
 
    Out_inv w      stored outbound counter + 1 = next_num_out, every journaled outbound number is below
                   next_num_out, a connection that is up has its writer.
-   OutStep w r    what a computation started in w did: the frames it wrote carry next_num_out, +1, +2, ...
-                  (their MsgSeqNum field says so), exactly these (number, frame) pairs were appended to the
-                  journal, next_num_out advanced by their count, Out_inv holds again.
+   OutStep w r    what a computation started in w did: the NEW frames it wrote (`news`: everything but
+                  PossDupFlag=Y retransmissions and SequenceReset-GapFill, which are never journaled) carry
+                  next_num_out, +1, +2, ... (their MsgSeqNum field says so), exactly these (number, frame) pairs
+                  were appended to the journal, next_num_out advanced by their count, Out_inv holds again.
    `new` message  raw_seq m = false: not a SequenceReset and without PossDupFlag=Y (the codec allocates).
 
-   Known-finding classes excluded by the `_partial` theorem:
-     D12_step  an inbound ResendRequest (servicing rewinds / truncates / rewrites the outbound journal)
-     D20_step  an application send of a SequenceReset / PossDupFlag=Y message (numbered by the message itself)
+   D12 (ResendRequest servicing rewound / truncated the outbound journal) is repaired in the code: servicing a
+   ResendRequest now preserves Out_inv, consumes no number and journals nothing (C05_history_partial has no D12
+   hypothesis any more; C05_resend_twice_ok is the former witness).
+   Known-finding class excluded by the `_partial` theorem:
+     D20_step  an application send of a SequenceReset that is not a gap fill (raw_seq m = true and
+               skip_journal m = false): numbered by its own MsgSeqNum field and journaled under it
    Numbers are assumed inside SQLite's INTEGER range (in_i64 / in_range hypotheses). *)
 From Coq Require Import ZArith NArith List Bool.
 From AF Require Import Base.Sx Py.Str Fix.Session Lemmas.SessionL Lemmas.SessionC04L Lemmas.SessionC11L Lemmas.SessionC05L.
@@ -53,27 +57,45 @@ Theorem C05_refused_is_free : forall c m w,
 Proof. exact send_msg_conn_free. Qed.
 Print Assumptions C05_refused_is_free.
 
-(* every history of inbound messages, sends, probes and disconnects outside D12 / D20: each step is an
-   OutStep (consecutive numbers from next_num_out, journaled under them) and the invariant holds at the end *)
+(* every history of inbound messages (ResendRequests included), sends, probes and disconnects outside D20: each
+   step is an OutStep (new frames numbered consecutively from next_num_out and journaled under those numbers,
+   retransmissions and gap fills not journaled) and the invariant holds at the end *)
 Theorem C05_history_partial : forall c h w,
   Out_inv w -> I64MIN <= nout w -> nout (final c w h) <= I64MAX + 1 ->
-  Forall (fun s => ~ D12_step s /\ ~ D20_step s) (run c w h) ->
+  Forall (fun s => ~ D20_step s) (run c w h) ->
   Forall (fun s => OutStep (s_before s) (s_res s)) (run c w h) /\ Out_inv (final c w h).
 Proof. exact run_out_inv. Qed.
 Print Assumptions C05_history_partial.
 
-(* D12: a second ResendRequest over an already replayed range aborts and leaves next_num_out rewound:
-   the next new message reuses number 2 *)
-Theorem C05_resend_abort_refuted :
-  exists c w h,
-    Out_inv w /\ in_i64 (nout (final c w h)) = true
-    /\ (exists s, In s (run c w h) /\ nout (s_after s) < nout (s_before s))
-    /\ new_numbers (trace (run c w h)) = [S "1"; S "2"; S "3"; S "2"].
-Proof. exact resend_abort_refuted. Qed.
-Print Assumptions C05_resend_abort_refuted.
+(* _process_message alone, any inbound message (no class excluded): keeps the invariant *)
+Theorem C05_inbound_preserves : forall c m now w,
+  Out_inv w -> in_range w (process_message c m now w) -> OutStep w (process_message c m now w).
+Proof. exact process_message_outok. Qed.
+Print Assumptions C05_inbound_preserves.
 
-(* D20: an application-sent SequenceReset(34 = next_num_out) is journaled under that number without consuming
-   it; the next new message carries the same number and its journal write raises DuplicateSeqNoError after
+(* the former D12 witness: two ResendRequests over the same range: answered twice from the untouched journal
+   (8 frames written in all), new numbers 1 2 3 4, journal rows 1 2 3 4, ACTIVE *)
+Example C05_resend_twice_ok :
+  Out_inv w_acceptor /\ Forall (fun s => ~ D20_step s) (run cfgS w_acceptor h_resend_twice)
+  /\ new_numbers (trace (run cfgS w_acceptor h_resend_twice)) = [S "1"; S "2"; S "3"; S "4"]
+  /\ map fst (j_out (jr (final cfgS w_acceptor h_resend_twice))) = [1; 2; 3; 4]
+  /\ length (wires (trace (run cfgS w_acceptor h_resend_twice))) = 8%nat
+  /\ st (final cfgS w_acceptor h_resend_twice) = ST_ACTIVE.
+Proof. exact resend_twice_ok. Qed.
+Print Assumptions C05_resend_twice_ok.
+
+(* application-sent SequenceReset-GapFill / PossDupFlag=Y messages: written, not journaled, no number consumed:
+   inside the scope of C05_history_partial *)
+Example C05_app_gapfill_in_scope :
+  Forall (fun s => ~ D20_step s) (run cfgS w_acceptor h_app_gapfill)
+  /\ new_numbers (trace (run cfgS w_acceptor h_app_gapfill)) = [S "1"; S "2"]
+  /\ length (wires (trace (run cfgS w_acceptor h_app_gapfill))) = 4%nat
+  /\ map fst (j_out (jr (final cfgS w_acceptor h_app_gapfill))) = [1; 2].
+Proof. exact app_gapfill_in_scope. Qed.
+Print Assumptions C05_app_gapfill_in_scope.
+
+(* D20: an application-sent plain SequenceReset(34 = next_num_out, no GapFillFlag) is journaled under that number
+   without consuming it; the next new message carries the same number and its journal write raises DuplicateSeqNoError after
    the frame was written *)
 Theorem C05_app_seqreset_refuted :
   exists c w h,
@@ -86,7 +108,7 @@ Print Assumptions C05_app_seqreset_refuted.
 
 Example C05_nonvacuous :
   Out_inv w_acceptor /\ I64MIN <= nout w_acceptor /\ nout (final cfgS w_acceptor h_c05_good) <= I64MAX + 1
-  /\ Forall (fun s => ~ D12_step s /\ ~ D20_step s) (run cfgS w_acceptor h_c05_good)
+  /\ Forall (fun s => ~ D20_step s) (run cfgS w_acceptor h_c05_good)
   /\ new_numbers (trace (run cfgS w_acceptor h_c05_good)) = [S "1"; S "2"; S "3"; S "4"; S "5"; S "6"]
   /\ j_sout (jr (final cfgS w_acceptor h_c05_good)) = 6.
 Proof. exact c05_good_in_scope. Qed.
